@@ -237,7 +237,7 @@ def attribute(res):
         if not f and fl:
             # lemma / spec function written in the template: name it and read `[Cxx]` tags from its header or doc comment
             for ln in range(fl, max(fl - 400, 0), -1):
-                mm = re.match(r'\s*(?:pub\s+)?(?:broadcast\s+)?(?:open\s+|closed\s+)?(?:proof|spec)\s+fn\s+(\w+)', lines[ln - 1])
+                mm = re.match(r'\s*(?:pub\s+)?(?:broadcast\s+)?(?:open\s+|closed\s+)?(?:(?:proof|spec|exec)\s+)?fn\s+(\w+)', lines[ln - 1])
                 if mm:
                     fname = mm.group(1)
                     for q in (ln - 1, ln - 2):
